@@ -22,6 +22,22 @@ mod p23;
 mod p25;
 mod p29;
 mod p31;
+mod p08;
+mod p12;
+mod p13;
+mod p14;
+mod p15;
+mod p17;
+mod p18;
+mod p19;
+mod p20;
+mod p24;
+mod p26;
+mod p27;
+mod p28;
+mod p30;
+mod p32;
+mod p33;
 
 use util::Ctx;
 
@@ -80,6 +96,22 @@ fn main() {
         "C25" => p25::run(&mut ctx),
         "C29" => p29::run(&mut ctx),
         "C31" => p31::run(&mut ctx),
+        "C08" => p08::run(&mut ctx),
+        "C12" => p12::run(&mut ctx),
+        "C13" => p13::run(&mut ctx),
+        "C14" => p14::run(&mut ctx),
+        "C15" => p15::run(&mut ctx),
+        "C17" => p17::run(&mut ctx),
+        "C18" => p18::run(&mut ctx),
+        "C19" => p19::run(&mut ctx),
+        "C20" => p20::run(&mut ctx),
+        "C24" => p24::run(&mut ctx),
+        "C26" => p26::run(&mut ctx),
+        "C27" => p27::run(&mut ctx),
+        "C28" => p28::run(&mut ctx),
+        "C30" => p30::run(&mut ctx),
+        "C32" => p32::run(&mut ctx),
+        "C33" => p33::run(&mut ctx),
         _ => { eprintln!("unknown property {prop}"); std::process::exit(2); }
     }
     ctx.finish();
